@@ -142,3 +142,63 @@ def wait_oracle(case, impl):
     if not impl[-1].startswith("done(ok"):
         return "key=lost-wakeup waiter still blocked after the condition became true: %s -> %s" % (case, impl[-4:])
     return None
+
+
+def rpq_oracle_cancel(case, impl):
+    """variant of rpq_oracle for schedules with cancellations: a cancelled consumer may have taken (and dropped) at most the
+    item it was holding; a cancelled producer's remaining script ops never ran"""
+    deregd = set()
+    scripts = {}
+    accepted = {}
+    returned = []
+    cancelled = set()
+    for op, out in zip(case, impl):
+        p = op.split(" ")
+        if p[0] == "task" and p[2] == "script":
+            scripts[p[1]] = p[3].split(";")
+        elif p[0] == "cancel" and out == "done(cancelled)":
+            cancelled.add(p[1])
+        elif p[0] in ("step", "cancel") and out in ("done(PANIC)", "HANG"):
+            return "key=rpq-cancel-crash task %s: %s" % (p[1], out)
+        elif p[0] == "res" and p[1] in scripts:
+            res = out[1:-1].split(";") if out != "[]" else []
+            sc = scripts.pop(p[1])
+            for o, r in zip(sc, res):
+                f = o.split(":")
+                if f[0] in ("send", "trysend") and r == "ok":
+                    accepted.setdefault(int(f[1]), []).append(int(f[2]))
+                elif f[0] == "batch" and r.startswith("sent="):
+                    n = int(r.split(" ")[0][5:])
+                    accepted.setdefault(int(f[1]), []).extend(int(x) for x in f[2].split(",")[:n])
+                elif f[0] in ("pop", "trypop") and ":" in r and not r.startswith("err"):
+                    pp, it = r.split(":")
+                    returned.append((p[1], int(pp), int(it)))
+    items = [(pp, it) for _, pp, it in returned]
+    if len(items) != len(set(items)):
+        return "key=rpq-cancel-duplicate an item was returned twice: %s" % items
+    for cons in set(c for c, _, _ in returned):
+        for pipe in set(pp for _, pp, _ in returned):
+            seq = [it for c, pp, it in returned if c == cons and pp == pipe]
+            if seq != sorted(seq):
+                return "key=rpq-cancel-order consumer %s saw pipe %d out of order: %s" % (cons, pipe, seq)
+    last = impl[-1]
+    for tok in last.split(" "):
+        if tok.startswith("p") and ":" in tok:
+            pid = int(tok[1:tok.index(":")])
+            q, r, l = [int(x[1:]) for x in tok[tok.index(":") + 1:].split(",")]
+            if q != l:
+                return "key=rpq-cancel-counter pipe %d queued_count=%d but channel holds %d at quiescence" % (pid, q, l)
+            if r != q:
+                return "key=rpq-cancel-reservation-leak pipe %d reserved_count=%d queued_count=%d at quiescence" % (pid, r, q)
+            if l > 0:
+                return "key=rpq-cancel-lost-wakeup pipe %d still holds %d item(s) while consumers are parked" % (pid, l)
+    # every completed accepted item is returned, except possibly items a cancelled task was in the middle of handling
+    got = {}
+    for pp, it in items:
+        got.setdefault(pp, set()).add(it)
+    slack = len(cancelled)
+    for pipe, acc in accepted.items():
+        missing = [x for x in acc if x not in got.get(pipe, set())]
+        if len(missing) > slack:
+            return "key=rpq-cancel-loss more accepted items missing (%s) than futures were dropped (%d)" % (missing, slack)
+    return None
